@@ -1,7 +1,7 @@
 (* Tie between the facts regenerated from rpyc/core/netref.py, rpyc/core/protocol.py (request handlers),
    rpyc/utils/helpers.py (buffiter) and rpyc/lib/__init__.py (get_methods) -- gen/Gen_netref.v, rewritten on every run --
    and the tables the model and its proofs use.  Every lemma is by computation. *)
-From V Require Import lib.Base model.Attr model.ProxyOps gen.Gen_netref gen.Gen_protocol gen.Gen_consts.
+From V Require Import lib.Base model.Attr model.ProxyOps gen.Gen_netref gen.Gen_protocol gen.Gen_consts gen.Gen_attrpolicy proofs.AttrP.
 From Coq Require Import String.
 Open Scope string_scope.
 
@@ -55,3 +55,14 @@ Lemma tie_default_switches :
      Some (allow_getattr sw_default); Some (allow_setattr sw_default); Some (allow_delattr sw_default)]
   /\ Gen_protocol.exposed_prefix = pc_prefix conf_default.
 Proof. split; reflexivity. Qed.
+(* the classic configuration is the default one updated by SlaveService.on_connect (gen/Gen_attrpolicy.v, C06's translator) *)
+Definition upd (k : string) (dflt : bool) : bool := match slookup Gen_attrpolicy.classic_update k with Some b => b | None => dflt end.
+Lemma tie_classic_switches : Gen_attrpolicy.default_switches = sw_default /\
+  sw_classic = {| allow_safe := upd "allow_safe_attrs" (allow_safe sw_default); allow_exposed := upd "allow_exposed_attrs" (allow_exposed sw_default);
+                  allow_public := upd "allow_public_attrs" (allow_public sw_default); allow_all := upd "allow_all_attrs" (allow_all sw_default);
+                  allow_getattr := upd "allow_getattr" (allow_getattr sw_default); allow_setattr := upd "allow_setattr" (allow_setattr sw_default);
+                  allow_delattr := upd "allow_delattr" (allow_delattr sw_default) |}.
+Proof. split; reflexivity. Qed.
+(* the decision function the model uses for permissions is the one regenerated from _check_attr (C06's tie) *)
+Lemma tie_check_attr : forall s perm pne n o, Gen_attrpolicy.check_attr s perm pne n o = Attr.check_attr s perm pne n o.
+Proof. exact AttrP.tie_check_attr. Qed.
